@@ -107,6 +107,14 @@ fn raw_literal(maxlen: usize) -> BoxedStrategy<String> {
         // values wrapped in the delimiters of another term kind
         1 => (proptest::collection::vec(lit_char(), 0..=4), select(vec![("<", ">"), ("\"", "\""), ("{|", "|}"), ("'", "'"), ("<", ">>")]))
             .prop_map(|(v, (a, b))| format!("{a}{}{b}", v.into_iter().collect::<String>())),
+        // long values (large payloads): harmless text up to and around 1 KiB / 4 KiB / 8 KiB with one special character
+        // placed on the boundary
+        1 => (select(vec![1023usize, 1024, 1025, 4095, 4096, 4097, 8192, 9000]), lit_char(), 0usize..3, select(FILLERS.to_vec())).prop_map(|(n, c, off, f)| {
+            let mut s: String = std::iter::repeat(f).take(n.saturating_sub(off)).collect();
+            s.push(c);
+            s.extend(std::iter::repeat(f).take(off + 2));
+            s
+        }),
     ]
     .boxed()
 }
@@ -249,6 +257,7 @@ fn classify(o: &mut Outcome, ds: &RtDataset) {
                     lit_delim = true;
                 }
                 o.class_if(l.is_empty(), "lit-empty");
+                o.class_if(l.len() >= 1000, "lit-long(>=1000 bytes)");
                 o.class_if(f.contains(&Feat::Escape) || f.contains(&Feat::LeadingDquote), "lit-escape-char");
                 o.class_if(f.contains(&Feat::EdgeWs) || f.contains(&Feat::EdgeLinebreak), "lit-edge-whitespace");
                 o.class_if(f.contains(&Feat::AngleWrapped), "lit-angle-wrapped");
